@@ -689,6 +689,35 @@ func (c *Ctx) suffixOf(v ssa.Value, param ssa.Value, depth int) bool {
 	case *ssa.Slice:
 		return t.High == nil && c.suffixOf(t.X, param, depth+1)
 	case *ssa.Extract:
+		// a result of a module helper that is, on every return, a suffix of one of its parameters (or "" on a
+		// failure path): a suffix of the corresponding argument
+		if call, ok := t.Tuple.(*ssa.Call); ok && !call.Call.IsInvoke() {
+			if callee := call.Call.StaticCallee(); callee != nil && c.InModuleFn(callee) && depth < 5 {
+				for pi, pr := range callee.Params {
+					if pi >= len(call.Call.Args) || !isStringType(pr.Type()) {
+						continue
+					}
+					all, n := true, 0
+					funcInstrs(callee, func(in ssa.Instruction) {
+						rt, isR := in.(*ssa.Return)
+						if !isR || t.Index >= len(rt.Results) {
+							return
+						}
+						n++
+						rv := retVal(rt, t.Index)
+						if k, isK := constString(rv); isK && k == "" {
+							return
+						}
+						if !c.suffixOf(rv, pr, depth+1) {
+							all = false
+						}
+					})
+					if all && n > 0 && c.suffixOf(call.Call.Args[pi], param, depth+1) {
+						return true
+					}
+				}
+			}
+		}
 		// the "after" result of strings.Cut is a suffix of its operand
 		if call, ok := t.Tuple.(*ssa.Call); ok && calleeName(&call.Call) == "strings.Cut" && t.Index == 1 {
 			return c.suffixOf(call.Call.Args[0], param, depth+1)
@@ -988,6 +1017,28 @@ func runC10(c *Ctx) {
 	r.Anchor("R4", "rate-limiter call (in write or in a helper write calls once) and socket write in write()", rlCall != nil && wsCall != nil)
 	if rlCall == nil || wsCall == nil {
 		return
+	}
+	// one charge per line on the wire: the socket write happens once per limiter call (not in a loop over parts of
+	// what was charged), and what it writes is the charged string itself plus the terminator
+	{
+		leaf, via := c.writerLeaf(wf)
+		okOnce, whyOnce := c.LoopDepth(wsCall.Block()) == 0, "socket write outside any loop"
+		if !okOnce {
+			whyOnce = "the socket write sits in a loop: several lines go out for one charge"
+		}
+		if okOnce && leaf != nil {
+			funcInstrs(leaf, func(in ssa.Instruction) {
+				if cc := callOf(in); cc != nil && calleeName(cc) == "(*bufio.Writer).WriteString" {
+					if c.LoopDepth(in.Block()) != 0 {
+						okOnce, whyOnce = false, "WriteString in a loop at "+c.InstrPos(in)
+					} else if okP, whyP := c.crlfOfParam(cc.Args[1], leaf); !okP {
+						okOnce, whyOnce = false, "the written text is not the charged line + CRLF: "+whyP
+					}
+				}
+			})
+		}
+		_ = via
+		r.Add("R4", "one-line-per-charge", c.InstrPos(wsCall), c.FuncKey(wf), "each charge pays for exactly one line on the wire", okOnce, whyOnce)
 	}
 	line := wf.Params[1]
 	okLen := false
